@@ -32,3 +32,40 @@ Example C15_example :
   runner_new (mkParams (NTMax 5) (CSMin 7)) TReduce (Some 1000) 16
   = Some (mkRunner (Some 1000) 5 (RMin 7)).
 Proof. vm_compute. reflexivity. Qed.
+
+Local Close Scope N_scope.
+From OrxPar Require Import Spec Pipeline PipelineP Machine MachineP MachineIter MachineIterP Kernels KernelsP
+  Program Master MasterIter Exec ExecP.
+
+(** ... and no parameter setting changes a result: for every terminal of the executable model, every
+    computation [p] of the eight types, every source, every well-formed resolved setting [r] (that
+    is: every [num_threads] / [chunk_size]) and every schedule, the value the parallel branch
+    computes from what the workers did ([finish]) is the value of the sequential branch
+    ([finish_seq], i.e. [num_threads(1)]) -- equal up to the order of [collect_x]; reduce-family
+    operators associative and commutative; the map-only bag path needs one value per element,
+    which holds for map-only computations. *)
+Theorem C15_parallel_value_is_sequential_value :
+  forall (r : Runner) (p : par Z) (src : list Z) (t : terminal) (sched : list nat),
+  runner_wf r ->
+  (kind_of p = KMap -> forall x, length (yields (trace p x)) = 1) ->
+  (forall f, red_family t = Some f ->
+     (forall a b c, f (f a b) c = f a (f b c)) /\ (forall a b, f a b = f b a)) ->
+  let stop := if is_find t then stop_of p src else (@nostop) in
+  all_done (mrun r (length src) stop sched) ->
+  req (finish t (pe_of p src) (length src) (kind_of p) (ws (mrun r (length src) stop sched)))
+      (fst (finish_seq t (flat_map (trace p) src) src p)).
+Proof. intros r p src t sched Hw H1 Hop stop Hd. apply exec_value_indexed; assumption. Qed.
+Print Assumptions C15_parallel_value_is_sequential_value.
+
+Theorem C15_parallel_value_is_sequential_value_iter :
+  forall (r : Runner) (p : par Z) (src : list Z) (t : terminal) (ordered : bool) (sched : list nat),
+  runner_wf r ->
+  (kind_of p = KMap -> forall x, length (yields (trace p x)) = 1) ->
+  (forall f, red_family t = Some f ->
+     (forall a b c, f (f a b) c = f a (f b c)) /\ (forall a b, f a b = f b a)) ->
+  let stop := if is_find t then stop_of p src else (@nostop) in
+  iall_done (imrun r (length src) ordered stop sched) ->
+  req (finish t (pe_of p src) (length src) (kind_of p) (map wk (iws (imrun r (length src) ordered stop sched))))
+      (fst (finish_seq t (flat_map (trace p) src) src p)).
+Proof. intros r p src t ordered sched Hw H1 Hop stop Hd. apply exec_value_iter; assumption. Qed.
+Print Assumptions C15_parallel_value_is_sequential_value_iter.
